@@ -11,7 +11,7 @@ from .universe import Universe
 
 ALL_THMS = [
     "ThmGreen", "ThmMomCompl", "ThmLoops", "ThmLoopCorners", "ThmKindShape",
-    "ThmComplRow", "ThmSingletonLaws", "ThmInclExcl", "ThmParity", "ThmSubset", "ThmXorTouch", "ThmBdryIn", "ThmXings",
+    "ThmComplRow", "ThmSingletonLaws", "ThmInclExcl", "ThmParity", "ThmSubset", "ThmXorTouch", "ThmBdryIn", "ThmXings", "ThmWindingTable", "ThmContainsSimple",
 ]
 
 
@@ -100,7 +100,7 @@ def _hash(uname, files):
 
 def pair_rows(uname, timeout=1800):
     """one-step Bin behaviours computed by TLC (ShapeSysExport), cached by spec hash"""
-    d = os.path.join(tlc.BUILD, "tables")
+    d = tlc.TABLES
     os.makedirs(d, exist_ok=True)
     path = os.path.join(d, "pairs_%s.%s.json" % (uname, _hash(uname, ["Plane.tla", "ShapeSys.tla", "ShapeSysExport.tla"])))
     if not os.path.exists(path):
